@@ -176,6 +176,14 @@ class PipeRef:
                 if not (k == "A" and n == 0):
                     self.wire[side].append((CMD_PSH, sid, d))
             return None
+        if k == "P":
+            if tk == "w+":
+                self.wire[p[1]].append((CMD_PSH, int(p[2]), unhx(p[3])))
+            return None
+        if k == "U":
+            if tk == "s+":
+                self.wire[p[1]].append((CMD_PSH, int(p[2]), unhx(p[4])))
+            return None
         if k == "H":
             side, sid, kk = p[1], int(p[2]), int(p[3])
             if tk.endswith("!"):
